@@ -12,6 +12,13 @@ Line protocol identical to lean/Drivers/C48.lean (sections separated by `|`, a s
   gb S | label | pat target v.. , .. | pat target v.. , ..
   apply Spred | Smeas | pat:pname:val:min:max , .. | gains | biases | normalize     (facts mode only: SignalTransform.apply)
 
+Every line may end with one more section `| types key=tag ..` (see lean/Drivers/C48.lean for the keys, tags and
+validation rules, mirrored here): it selects the PYTHON-LEVEL REPRESENTATION in which the same numbers are handed to
+the real code -- python int/float, numpy scalars (float64/float32/int64/int32), python lists vs arrays, integer-dtype
+arrays for times / data / parameter values, 1-D `data`, mapping indices as int32 arrays or through
+`TimeSeries.create` (list / bare int), `sensor_delays` as an empty dict instead of None, `predicted_data` as int or
+numpy bool.  A tag that cannot represent its value exactly is `bad-op`, so the expected result never depends on it.
+
 Output: `ok n m ; t.. ; d..` | `error <kind>` | `bad-op` | `EXC <Type> <message>`.
 
 With --facts each output line is a JSON object instead: the canonical line plus what the property oracle
@@ -22,6 +29,11 @@ needs, all measured around the call of the real code:
   ro_write  a second call on fresh, read-only copies of the inputs failed with numpy's read-only error
   self_id   ts.resample(ts.times) compared with ts.data ("eq" | "ne" | "nan" | "n/a")
   colwise_equal / ref_equal   grouped result == the tree's own column-wise / per-call reference
+  indep_colwise   apply_resample_and_delay vs a column-by-column computation that shares NOTHING with it but
+                  `TimeSeries.resample` on one-column float64 series: own per-column delay table built here from the
+                  numbers of the op line as python floats ("eq" | "ne <first differing cell>" | "raised <exc>" when the
+                  grouped call raised an unclassified exception but the column-by-column computation succeeded)
+  out_dtype       dtype of the returned data when it is not float64 (modifiers that interpolate must return floats)
 Usage: c48_signal.py <repo> [--facts]
 """
 import json
@@ -99,6 +111,146 @@ def valid_name(s):
     return bool(s) and all((c.isascii() and c.isalnum()) or c == "_" for c in s)
 
 
+INT_MAX = 2147483647.0
+DATA_I64_OPS = ("resample", "rdelay", "rdelaycol", "window", "dwindow")
+DATA_1D_OPS = ("resample", "window", "dwindow")
+
+
+def is_integral(x):
+    return x == x and abs(x) != float("inf") and x == float(int(x)) and abs(x) <= INT_MAX
+
+
+def is_f32(x):
+    if x != x or abs(x) == float("inf"):
+        return False
+    try:
+        return struct.unpack("f", struct.pack("f", x))[0] == x
+    except OverflowError:
+        return False
+
+
+def scalar_tag_ok(tag, x):
+    if tag in ("float", "npf64"):
+        return True
+    if tag in ("int", "npi64", "npi32"):
+        return is_integral(x)
+    if tag == "npf32":
+        return is_f32(x)
+    return False
+
+
+def array_tag_ok(tag, xs):
+    if tag in ("f64", "view"):
+        return True
+    if tag == "i64":
+        return all(is_integral(x) for x in xs)
+    return False
+
+
+def value_tag_ok(tag, v):
+    if tag in ("arr", "list"):
+        return True
+    if tag in ("ilist", "i64"):
+        return all(is_integral(x) for x in v)
+    if tag == "f32":
+        return all(is_f32(x) for x in v)
+    if tag in ("float", "npf64"):
+        return len(v) == 1
+    if tag == "int":
+        return len(v) == 1 and is_integral(v[0])
+    return False
+
+
+def list_tag_ok(ok, tags, vals):
+    ts = tags.split(",")
+    return len(ts) == len(vals) and all(ok(t, v) for t, v in zip(ts, vals))
+
+
+def parse_types(sec):
+    w = words(sec)
+    if not w or w[0] != "types":
+        raise Bad()
+    out = []
+    for x in w[1:]:
+        kv = x.split("=")
+        if len(kv) != 2 or not kv[0] or not kv[1]:
+            raise Bad()
+        out.append((kv[0], kv[1]))
+    return out
+
+
+def check_types(tys, allowed):
+    keys = [k for k, _ in tys]
+    if len(set(keys)) != len(keys):
+        raise Bad()
+    for k, t in tys:
+        if k not in allowed or not allowed[k](t):
+            raise Bad()
+    return dict(tys)
+
+
+def general_keys(op, spec):
+    return {
+        "data": lambda t: t == "f64" or (t == "i64" and op in DATA_I64_OPS and all(is_integral(x) for x in spec["data"]))
+        or (t == "1d" and spec["m"] == 1 and op in DATA_1D_OPS),
+        "tsd": lambda t: t != "view" and array_tag_ok(t, spec["times"]),
+        "idx": lambda t: t in ("i64", "i32", "list", "int"),
+    }
+
+
+def scalar_as(tag, x):
+    """the number x in the python-level representation `tag`"""
+    if tag == "float":
+        return float(x)
+    if tag == "int":
+        return int(x)
+    if tag == "npf64":
+        return np.float64(x)
+    if tag == "npf32":
+        return np.float32(x)
+    if tag == "npi64":
+        return np.int64(int(x))
+    if tag == "npi32":
+        return np.int32(int(x))
+    raise Bad()
+
+
+def array_as(tag, xs, inputs, key):
+    """a 1-D array of the numbers xs: float64, int64 or a strided float64 view into a larger buffer"""
+    if tag == "i64":
+        a = np.array([int(x) for x in xs], dtype=np.int64)
+    elif tag == "view":
+        base = np.full(3 * len(xs) + 2, -333.0)
+        a = base[1::3][:len(xs)]
+        a[...] = np.array(xs, dtype=np.float64)
+        inputs[key + ".base"] = base
+    else:
+        a = np.array(xs, dtype=np.float64)
+    inputs[key] = a
+    return a
+
+
+def nominal_as(tag, v):
+    """the `nominal` argument of Parameter (float | array-like) for the numbers v"""
+    if tag == "arr":
+        return np.array(v, dtype=np.float64)
+    if tag == "list":
+        return [float(x) for x in v]
+    if tag == "ilist":
+        return [int(x) for x in v]
+    if tag == "i64":
+        return np.array([int(x) for x in v], dtype=np.int64)
+    if tag == "f32":
+        return np.array(v, dtype=np.float32)
+    if tag == "float":
+        return float(v[0])
+    if tag == "npf64":
+        return np.float64(v[0])
+    if tag == "int":
+        return int(v[0])
+    raise Bad()
+
+
 def parse_series(sec):
     parts = [p.strip() for p in sec.split(";")]
     if len(parts) != 4:
@@ -121,31 +273,51 @@ def parse_series(sec):
     return {"n": n, "m": m, "lay": hd[2], "times": ts, "data": ds, "mapping": mapping}
 
 
-def build_series(spec, tag, inputs):
+def build_series(spec, tag, inputs, ty=None):
     """Fresh arrays + the real TimeSeries (may raise like any construction by a user)."""
+    ty = ty or {}
     n, m, lay = spec["n"], spec["m"], spec["lay"]
-    vals = np.array(spec["data"], dtype=np.float64).reshape(n, m)
-    tv = np.array(spec["times"], dtype=np.float64)
+    dkind = ty.get("data", "f64")
+    ddt = np.int64 if dkind == "i64" else np.float64
+    if dkind == "i64":
+        vals = np.array([int(x) for x in spec["data"]], dtype=np.int64).reshape(n, m)
+    else:
+        vals = np.array(spec["data"], dtype=np.float64).reshape(n, m)
+    tdt = np.int64 if ty.get("tsd") == "i64" else np.float64
+    tv = np.array([int(x) for x in spec["times"]], dtype=np.int64) if tdt is np.int64 else np.array(spec["times"], dtype=np.float64)
     if lay == "c":
         data, times = vals.copy(order="C"), tv.copy()
     elif lay == "f":
         data, times = np.asfortranarray(vals), tv.copy()
     else:  # strided views into larger buffers
-        base = np.full((n, 2 * m + 1), 777.0)
+        base = np.full((n, 2 * m + 1), 777, dtype=ddt)
         data = base[:, 1::2][:, :m]
         data[...] = vals
-        tb = np.full(2 * n + 1, -555.0)
+        tb = np.full(2 * n + 1, -555, dtype=tdt)
         times = tb[1::2][:n]
         times[...] = tv
         inputs[tag + ".data.base"] = base
         inputs[tag + ".times.base"] = tb
+    if dkind == "1d":
+        data = data[:, 0] if lay == "v" else np.ascontiguousarray(data[:, 0])   # rank-1 `data` (a strided view for layout v)
     inputs[tag + ".times"] = times
     inputs[tag + ".data"] = data
+    ikind = ty.get("idx", "i64")
     sm = {}
     for k, (name, idx) in enumerate(spec["mapping"]):
-        ia = np.array(idx, dtype=int)
+        if ikind in ("list", "int"):
+            # (an empty python list would become a float64 array in create(): keep an integer array for it)
+            sm[name] = (T.SignalType.CustomObs, idx[0] if ikind == "int" and len(idx) == 1 else
+                        list(idx) if idx else np.array([], dtype=int))
+            continue
+        ia = np.array(idx, dtype=np.int32 if ikind == "i32" else int)
         inputs["%s.map.%s" % (tag, name)] = ia
         sm[name] = (T.SignalType.CustomObs, ia)
+    if ikind in ("list", "int"):
+        ts = T.TimeSeries.create(times, data, sm)   # the documented constructor for list / int index entries
+        for name, (_, ia) in ts.signal_mapping.items():
+            inputs["%s.map.%s" % (tag, name)] = ia
+        return ts
     return T.TimeSeries(times, data, sm)
 
 
@@ -167,18 +339,21 @@ def classify(e):
     return "EXC %s %s" % (type(e).__name__, s.replace("\n", " ")[:160])
 
 
-def show(times, data):
+def show(times, data, rank1=False):
     times = np.asarray(times)
     data = np.asarray(data)
     n = data.shape[0]
-    m = data.shape[1] if data.ndim == 2 else -1
+    if rank1:      # rank-1 data in: rank-1 data out is shown as one column
+        m = 1 if data.ndim == 1 else -2
+    else:
+        m = data.shape[1] if data.ndim == 2 else -1
     return "ok %d %d ; %s ; %s" % (n, m, " ".join(hexf(x) for x in times),
                                    " ".join(hexf(x) for x in data.reshape(-1)))
 
 
-def param(name, vals, lo=None, hi=None):
+def param(name, vals, lo=None, hi=None, form="arr"):
     v = np.array(vals, dtype=np.float64)
-    return P.Parameter(name, v, v - 1.0 if lo is None else lo, v + 1.0 if hi is None else hi)
+    return P.Parameter(name, nominal_as(form, vals), v - 1.0 if lo is None else lo, v + 1.0 if hi is None else hi)
 
 
 def parse_entries(sec):
@@ -210,9 +385,17 @@ def prepare(line):
     if not w0:
         raise Bad()
     op = w0[0]
+    tys = []
+    if len(secs) > 1 and words(secs[-1])[:1] == ["types"]:
+        tys = parse_types(secs[-1])
+        secs = secs[:-1]
     sec0 = secs[0][secs[0].index(op) + len(op):]
     spec = parse_series(sec0)
     rest = secs[1:]
+    gen = general_keys(op, spec)
+
+    def typed(extra):
+        return check_types(tys, dict(gen, **extra))
 
     def one(x):
         if len(x) != 1:
@@ -221,12 +404,13 @@ def prepare(line):
 
     if op == "resample" and len(rest) == 1:
         nt = [f_of(x) for x in words(rest[0])]
+        ty = typed({"nt": lambda t: array_tag_ok(t, nt)})
+        spec["ty"] = ty
 
         def make():
             inp = {}
-            ts = build_series(spec, "ts", inp)
-            a = np.array(nt, dtype=np.float64)
-            inp["new_times"] = a
+            ts = build_series(spec, "ts", inp, ty)
+            a = array_as(ty.get("nt", "f64"), nt, inp, "new_times")
             return inp, [(ts, "times", "ts.times"), (ts, "data", "ts.data")], (lambda: ts.resample(a)), ts
         return op, spec, make
     if op in ("bias", "gain", "delay") and len(rest) == 2:
@@ -234,12 +418,14 @@ def prepare(line):
         vals = [f_of(x) for x in words(rest[1])]
         if op == "delay" and len(vals) != 1:
             raise Bad()
+        ty = typed({"v": lambda t: value_tag_ok(t, vals)})
+        spec["ty"] = ty
         fn = {"bias": SM.apply_bias, "gain": SM.apply_gain, "delay": SM.apply_delay}[op]
 
         def make():
             inp = {}
-            ts = build_series(spec, "ts", inp)
-            p = param("p", vals)
+            ts = build_series(spec, "ts", inp, ty)
+            p = param("p", vals, form=ty.get("v", "arr"))
             inp["param.value"] = p.value
             return inp, [(ts, "times", "ts.times"), (ts, "data", "ts.data"), (p, "value", "param.value")], (lambda: fn(ts, name, p)), ts
         return op, spec, make
@@ -247,27 +433,32 @@ def prepare(line):
         b = [f_of(x) for x in words(rest[0])]
         if len(b) != 2:
             raise Bad()
+        ty = typed({"lo": lambda t: scalar_tag_ok(t, b[0]), "hi": lambda t: scalar_tag_ok(t, b[1])})
+        spec["ty"] = ty
 
         def make():
             inp = {}
-            ts = build_series(spec, "ts", inp)
-            return inp, [(ts, "times", "ts.times"), (ts, "data", "ts.data")], (lambda: SM.apply_time_window(ts, b[0], b[1])), ts
+            ts = build_series(spec, "ts", inp, ty)
+            lo, hi = scalar_as(ty.get("lo", "float"), b[0]), scalar_as(ty.get("hi", "float"), b[1])
+            return inp, [(ts, "times", "ts.times"), (ts, "data", "ts.data")], (lambda: SM.apply_time_window(ts, lo, hi)), ts
         return op, spec, make
     if op == "dwindow" and len(rest) == 2:
         t2 = [f_of(x) for x in words(rest[0])]
         b = [f_of(x) for x in words(rest[1])]
         if len(b) != 2:
             raise Bad()
+        ty = typed({"t2": lambda t: array_tag_ok(t, t2), "lo": lambda t: scalar_tag_ok(t, b[0]), "hi": lambda t: scalar_tag_ok(t, b[1])})
+        spec["ty"] = ty
 
         def make():
             inp = {}
-            ts = build_series(spec, "ts", inp)
-            ta = np.array(t2, dtype=np.float64)
+            ts = build_series(spec, "ts", inp, ty)
+            ta = array_as(ty.get("t2", "f64"), t2, inp, "ts_delayed.times")
             da = np.zeros((len(t2), 1))
-            inp["ts_delayed.times"] = ta
             inp["ts_delayed.data"] = da
             tsd = T.TimeSeries(ta, da, None)
-            return inp, [(ts, "times", "ts.times"), (ts, "data", "ts.data")], (lambda: SM.apply_delayed_ts_window(ts, tsd, b[0], b[1])), ts
+            lo, hi = scalar_as(ty.get("lo", "float"), b[0]), scalar_as(ty.get("hi", "float"), b[1])
+            return inp, [(ts, "times", "ts.times"), (ts, "data", "ts.data")], (lambda: SM.apply_delayed_ts_window(ts, tsd, lo, hi)), ts
         return op, spec, make
     if op in ("rdelay", "rdelaycol") and len(rest) == 4:
         nt = [f_of(x) for x in words(rest[0])]
@@ -276,37 +467,50 @@ def prepare(line):
         pred = {"0": False, "1": True}.get(one(words(rest[3])))
         if pred is None:
             raise Bad()
+        ty = typed({"nt": lambda t: array_tag_ok(t, nt), "dflt": lambda t: scalar_tag_ok(t, dflt),
+                    "sd": lambda t: list_tag_ok(scalar_tag_ok, t, [d for _, d in sd]),
+                    "sdc": lambda t: t in ("auto", "dict"), "pred": lambda t: t in ("bool", "int", "npbool")})
+        spec["ty"] = ty
+        sdt = ty["sd"].split(",") if "sd" in ty else ["float"] * len(sd)
 
         def make():
             inp = {}
-            ts = build_series(spec, "ts", inp)
-            a = np.array(nt, dtype=np.float64)
-            inp["times_arg"] = a
-            sdd = dict(sd)
+            ts = build_series(spec, "ts", inp, ty)
+            a = array_as(ty.get("nt", "f64"), nt, inp, "times_arg")
+            sdd = {nm: scalar_as(t, d) for (nm, d), t in zip(sd, sdt)}
+            dv = scalar_as(ty.get("dflt", "float"), dflt)
+            pv = {"bool": pred, "int": int(pred), "npbool": np.bool_(pred)}[ty.get("pred", "bool")]
+            sda = sdd if (sdd or ty.get("sdc") == "dict") else None
             if op == "rdelay":
-                call = lambda: SM.apply_resample_and_delay(ts, a, dflt, sdd if sdd else None, pred)  # noqa: E731
+                call = lambda: SM.apply_resample_and_delay(ts, a, dv, sda, pv)  # noqa: E731
             else:
                 def call():
-                    delays = SM._build_per_column_delays(ts, dflt, sdd, pred)
+                    delays = SM._build_per_column_delays(ts, dv, sda, pv)
                     # same validation of the target times as the grouped path performs through TimeSeries(...)
                     return T.TimeSeries(a, SM._apply_resample_and_delay_columnwise(ts, a, delays), ts.signal_mapping)
-            return inp, [(ts, "times", "ts.times"), (ts, "data", "ts.data")], call, ts
+            return inp, [(ts, "times", "ts.times"), (ts, "data", "ts.data")], call, (ts, a, dv, sda, pv)
+        spec["rdelay_args"] = (nt, dflt, sd, pred)
         return op, spec, make
     if op == "gb" and len(rest) == 3:
         label = one(words(rest[0]))
         if label not in ("predicted", "measured"):
             raise Bad()
         gains, biases = parse_entries(rest[1]), parse_entries(rest[2])
+        ty = typed({"gv": lambda t: list_tag_ok(value_tag_ok, t, [v for _, _, v in gains]),
+                    "bv": lambda t: list_tag_ok(value_tag_ok, t, [v for _, _, v in biases])})
+        spec["ty"] = ty
+        forms = {"g": ty["gv"].split(",") if "gv" in ty else ["arr"] * len(gains),
+                 "b": ty["bv"].split(",") if "bv" in ty else ["arr"] * len(biases)}
 
         def make():
             inp = {}
-            ts = build_series(spec, "ts", inp)
+            ts = build_series(spec, "ts", inp, ty)
             tr = ST.SignalTransform()
             pd = P.ParameterDict()
             holders = [(ts, "times", "ts.times"), (ts, "data", "ts.data")]
             for kind, ents in (("g", gains), ("b", biases)):
                 for k, (pat, target, v) in enumerate(ents):
-                    p = param("%s%d" % (kind, k), v)
+                    p = param("%s%d" % (kind, k), v, form=forms[kind][k])
                     pd.add(p)
                     inp["param.%s.value" % p.name] = p.value
                     holders.append((p, "value", "param.%s.value" % p.name))
@@ -326,17 +530,24 @@ def prepare(line):
         norm = {"0": False, "1": True}.get(one(words(rest[4])))
         if norm is None:
             raise Bad()
+        # oracle-only op: `dv` = form of the delay parameters' nominal (one tag for all), `idx`, `gv`/`bv` as for gb
+        ty = check_types(tys, {"idx": gen["idx"], "dv": lambda t: all(value_tag_ok(t, [d[2]]) for d in dl),
+                               "gv": lambda t: list_tag_ok(value_tag_ok, t, [v for _, _, v in gains]),
+                               "bv": lambda t: list_tag_ok(value_tag_ok, t, [v for _, _, v in biases])})
+        spec["ty"] = ty
+        forms = {"g": ty["gv"].split(",") if "gv" in ty else ["arr"] * len(gains),
+                 "b": ty["bv"].split(",") if "bv" in ty else ["arr"] * len(biases)}
 
         def make():
             inp = {}
-            tp = build_series(spec, "pred", inp)
-            tm = build_series(spec2, "meas", inp)
+            tp = build_series(spec, "pred", inp, ty)
+            tm = build_series(spec2, "meas", inp, ty)
             tr = ST.SignalTransform(normalize=norm)
             pd = P.ParameterDict()
             holders = [(tp, "times", "pred.times"), (tp, "data", "pred.data"), (tm, "times", "meas.times"), (tm, "data", "meas.data")]
             for pat, pname, v, lo, hi in dl:
                 if pname not in pd:
-                    p = param(pname, [v], np.array([lo]), np.array([hi]))
+                    p = param(pname, [v], np.array([lo]), np.array([hi]), form=ty.get("dv", "arr"))
                     pd.add(p)
                     for fld in ("value", "min_value", "max_value"):
                         inp["param.%s.%s" % (pname, fld)] = getattr(p, fld)
@@ -344,7 +555,7 @@ def prepare(line):
                 tr.delay(pat, pd[pname])
             for kind, ents in (("g", gains), ("b", biases)):
                 for k, (pat, target, v) in enumerate(ents):
-                    p = param("%s%d" % (kind, k), v)
+                    p = param("%s%d" % (kind, k), v, form=forms[kind][k])
                     pd.add(p)
                     inp["param.%s.value" % p.name] = p.value
                     holders.append((p, "value", "param.%s.value" % p.name))
@@ -368,14 +579,50 @@ def out_arrays(out):
     return {}
 
 
-def canonical(op, out):
+def canonical(op, out, rank1=False):
     if isinstance(out, Exception):
         return classify(out)
     if isinstance(out, T.TimeSeries):
-        return show(out.times, out.data)
+        return show(out.times, out.data, rank1)
     if isinstance(out, tuple):
         return show(out[2].times, out[0])
     return "EXC BadResult %s" % type(out).__name__
+
+
+def indep_columnwise(spec, out):
+    """apply_resample_and_delay against the column-by-column definition of its docstring, computed WITHOUT the delay
+    table, the grouping or any other part of signal_modifier.py: the per-column delays are rebuilt here from the numbers
+    of the op line (python floats: default for every column, overridden per named sensor, negated for predicted data),
+    then every column is resampled on its own, as a fresh one-column float64 series, at `times + delay[column]`."""
+    nt, dflt, sd, pred = spec["rdelay_args"]
+    n, m = spec["n"], spec["m"]
+    X = np.array(spec["times"], dtype=np.float64)
+    D = np.array(spec["data"], dtype=np.float64).reshape(n, m)
+    q = np.array(nt, dtype=np.float64)
+    per = [float(dflt)] * m
+    mp = dict(spec["mapping"])
+    try:
+        for name, d in dict(sd).items():
+            for i in mp[name]:
+                if i >= m:
+                    raise IndexError(i)
+                per[i] = float(d)
+        if pred:
+            per = [-d for d in per]
+        want = np.concatenate([T.TimeSeries(X.copy(), D[:, i:i + 1].copy(), None).resample(q + per[i]).data for i in range(m)], axis=1)
+    except Exception:
+        return None       # the arguments are invalid for the column-by-column computation as well
+    if isinstance(out, Exception):
+        c = classify(out)
+        return "raised " + c if c.startswith("EXC") else None
+    got = np.asarray(out.data)
+    if got.shape != want.shape:
+        return "ne shape %r vs %r" % (got.shape, want.shape)
+    neq = ~((got == want) | ((got != got) & (want != want)))
+    if neq.any():
+        r, c = [int(x) for x in np.argwhere(neq)[0]]
+        return "ne row %d col %d (delay %r): grouped %r column-by-column %r" % (r, c, per[c], float(got[r, c]), float(want[r, c]))
+    return "eq"
 
 
 def run_plain(line):
@@ -390,7 +637,7 @@ def run_plain(line):
         out = call()
     except Exception as e:  # the real code's own exceptions are part of its behaviour
         out = e
-    return canonical(op, out)
+    return canonical(op, out, spec.get("ty", {}).get("data") == "1d")
 
 
 def run_facts(line):
@@ -399,7 +646,7 @@ def run_facts(line):
     except (Bad, ValueError, IndexError):
         return {"out": "bad-op"}
     facts = {"op": op, "mutated": [], "rebound": [], "alias": [], "ro_write": False, "self_id": "n/a",
-             "colwise_equal": None, "ref_equal": None, "construct_error": None}
+             "colwise_equal": None, "ref_equal": None, "construct_error": None, "indep_colwise": None}
     # ---- pass 1: the call as a user would make it, snapshots around it
     try:
         inputs, holders, call, aux = make()
@@ -413,7 +660,9 @@ def run_facts(line):
     except Exception as e:
         out = e
     after = snap(inputs)
-    facts["out"] = canonical(op, out)
+    facts["out"] = canonical(op, out, spec.get("ty", {}).get("data") == "1d")
+    if isinstance(out, T.TimeSeries) and isinstance(out.data, np.ndarray) and out.data.dtype != np.float64:
+        facts["out_dtype"] = str(out.data.dtype)
     for k in inputs:
         if before[k][1:] != after[k][1:]:
             facts["mutated"].append(k)
@@ -451,6 +700,8 @@ def run_facts(line):
             ts3 = ts3
         elif op == "apply":
             ts3 = None
+        elif op in ("rdelay", "rdelaycol"):
+            ts3 = aux3[0]
         else:
             ts3 = aux3
         if ts3 is not None:
@@ -460,14 +711,13 @@ def run_facts(line):
             else:
                 facts["self_id"] = "eq" if np.array_equal(r.data, ts3.data) and np.array_equal(r.times, ts3.times) else "ne"
         if op == "rdelay" and isinstance(out, T.TimeSeries):
-            secs = [s.strip() for s in line.split("|")]
-            nt = np.array([f_of(x) for x in words(secs[1])], dtype=np.float64)
-            dflt = f_of(words(secs[2])[0])
-            sd = dict(parse_delays(secs[3]))
-            pred = words(secs[4])[0] == "1"
-            delays = SM._build_per_column_delays(ts3, dflt, sd, pred)
-            ref = SM._apply_resample_and_delay_columnwise(ts3, nt, delays)
+            # the tree's own reference, called with the very same (typed) arguments
+            _, a3, dv3, sda3, pv3 = aux3
+            delays = SM._build_per_column_delays(ts3, dv3, sda3, pv3)
+            ref = SM._apply_resample_and_delay_columnwise(ts3, a3, delays)
             facts["colwise_equal"] = bool(np.array_equal(ref, out.data, equal_nan=True))
+        if op == "rdelay":
+            facts["indep_colwise"] = indep_columnwise(spec, out)
     except Exception as e:
         facts["extra_error"] = "%s %s" % (type(e).__name__, str(e)[:120])
     return facts
